@@ -599,7 +599,17 @@ fn thr_phases(ctx: &mut Ctx) {
             }
             ThrCase { threads: vec![prog(1, &t0), prog(1, &vec![CloneChurn(7); 1500])], main_owner: true, schedule: None, late_subs: true, recorded: None }
         };
-        let cases = vec![mk(Set), mk(Update(1)), mk(WriteSec(0))];
+        let mut cases = vec![mk(Set), mk(Update(1)), mk(WriteSec(0))];
+        // equal values from two threads: a conditional set of a fixed value against plain sets of the
+        // same value and of other values (a check-then-act conditional setter answers Some(v) for v)
+        {
+            let mut t0 = vec![];
+            for _ in 0..1200 {
+                t0.push(SetConst);
+                t0.push(Set);
+            }
+            cases.push(ThrCase { threads: vec![prog(1, &t0), prog(1, &vec![SetConstIfHashNotEq; 2400])], main_owner: true, schedule: None, late_subs: false, recorded: None });
+        }
         let reps = ctx.pick(200, 4_000) as u32;
         let run_s = move |c: &ThrCase| engine_thr::run_reps(c, prop, reps);
         let saved = ctx.threads;
